@@ -139,7 +139,11 @@ func liftStream(s []string, lens []int, pat int) (data []byte, cum []int) {
 		switch c {
 		case "w":
 			for k := 0; k < n; k++ {
-				data = append(data, " \n\t\r"[(k*7+i)%4])
+				if pat == 8 || pat == 3 {
+					data = append(data, ' ') // runs of one and the same white space byte (scanned a word at a time)
+				} else {
+					data = append(data, " \n\t\r"[(k*7+i)%4])
+				}
 			}
 		case "d":
 			start := len(data)
